@@ -1,35 +1,22 @@
-(* C18 - concrete witnesses (executed in the exact-rational instance of the model) showing that two clauses of the
-   property do NOT hold of impose_collapse for every pair selection.  Both reproduce on the real code
-   (known_findings.d/C18.txt). *)
+(* C18 - concrete runs of the executable model in the exact-rational instance (non-vacuity witnesses).
+   History: this file used to hold two refutation witnesses for impose_collapse (weight counted twice for the
+   symmetric pair set {(0,1),(1,0)}; two dict entries for the chained pairs (0,1),(2,3),(0,2)).  Both defects were
+   repaired in /repo (tools.connected now skips self pairs and merges bridged groups); the model follows the repaired
+   code, the former witnesses now satisfy the property (first two conjuncts of [collapse_former_witnesses]) and the
+   full statements are theorems (Measures_Proofs.impose_collapse_keeps_total / impose_collapse_zeroes_members). *)
 From Coq Require Import List ZArith QArith.
 From MV Require Import Common.Num Pure.Measures.
 Import ListNotations.
 Open Scope Q_scope.
 
-(* full statement:  forall pairs x w y wts, impose_collapse pairs x w = Some (y, wts) -> sum wts = sum w.
-   Refuted: for the symmetric pair set {(0,1),(1,0)} tools.connected returns {0: {0,1}} and weight 0 is counted twice *)
-Lemma impose_collapse_keeps_total_refuted :
-  exists (pairs : list (Z * Z)) (x w y wts : list Q),
-    impose_collapse NumQ pairs x w = Some (y, wts) /\ ~ (nsum NumQ wts == nsum NumQ w).
-Proof.
-  exists [(0, 1); (1, 0)]%Z, [1; 2], [1; 1]. eexists. eexists. split.
-  - vm_compute. reflexivity.
-  - vm_compute. discriminate.
-Qed.
-
-(* full statement:  after impose_collapse, of the two ends of every pair (i,j), i<>j, at most one carries weight.
-   Refuted: for the chained pairs (0,1),(2,3),(0,2) tools.connected returns {0: {1,2}, 2: {3}} (two entries for one
-   component), index 2 is zeroed as a member of the first entry and then refilled as the key of the second *)
-Lemma impose_collapse_pair_zeroed_refuted :
-  exists (pairs : list (Z * Z)) (x w y wts : list Q) (i j : nat),
-    impose_collapse NumQ pairs x w = Some (y, wts) /\
-    In (Z.of_nat i, Z.of_nat j) pairs /\ i <> j /\
-    ~ (nth i wts 0 == 0) /\ ~ (nth j wts 0 == 0).
-Proof.
-  exists [(0, 1); (2, 3); (0, 2)]%Z, [1; 2; 3; 4], [1; 1; 1; 1]. eexists. eexists. exists 0%nat, 2%nat. split.
-  - vm_compute. reflexivity.
-  - split; [right; right; left; reflexivity|]. split; [discriminate|]. split; vm_compute; discriminate.
-Qed.
+Lemma collapse_former_witnesses :
+  option_map (fun p => map Qred (snd p)) (impose_collapse NumQ [(0, 1); (1, 0)]%Z [1; 2] [1; 1]) = Some [2; 0] /\
+  option_map (fun p => map Qred (snd p)) (impose_collapse NumQ [(0, 1); (2, 3); (0, 2)]%Z [1; 2; 3; 4] [1; 1; 1; 1])
+    = Some [4; 0; 0; 0] /\
+  connected [(0, 1); (1, 0)]%nat = [(0, [1])]%nat /\
+  connected [(0, 1); (2, 3); (0, 2)]%nat = [(0, [1; 3; 2])]%nat /\
+  connected [(2, 2)]%nat = [].
+Proof. vm_compute. repeat split. Qed.
 
 (* non-vacuity of the model itself: one run of every transform on a small weighted sample (exact rationals) *)
 Lemma model_runs :
